@@ -40,6 +40,10 @@ RULE = ("cases: TruncatedLevyMeasure.integrate(a,b) with [a,b] inside / outside 
         "nu(cell)): a difference from nu(cell) is finding F-C01-1.  Stream chain3d_uneq: the public CTMCGrid with axes of UNEQUAL lengths "
         "((5,7,5), (7,5,5), random): rates, IndexErrors and (sum of rates == intensity) as observed against the code-clamp model (behaviour pinned; "
         "outside C01's quantifier: no constructor builds such grids).  "
+        "TIE spot check (wave 8): the generated TIE definitions are spot-checked against the running Python on every run -- groups q_vector, "
+        "intensity_1d, intensity_2d, intensity_2d_nd, dispatch_c1d, dispatch_nd2 of harness/tie_selftest.py (12 cases each, kind tie_spot): "
+        "GenTieChain / GenTieChain2d definitions evaluated by vm_compute against create_q_vector, compute_intensity_of_jumps and "
+        "left_point / right_point / middle / grid[...] called on real CTMCGrid and Coordinate objects (incl. two-axis grids of unequal lengths), exact.  "
         "non-trivial = distinct chain with >= 2 states on a side")
 MODELLED = ["numpy arrays as lists of Q, np.zeros/enumerate loop of create_q_vector, itertools.product of the 3 intervals per dimension "
             "(dimension 1, 2, 3: intensity1 / intensity2 / intensity3, the 3^d-1 boxes in itertools.product order)",
@@ -72,7 +76,13 @@ MODELLED = ["numpy arrays as lists of Q, np.zeros/enumerate loop of create_q_vec
             "compute_intensity_of_jumps for a 1-d and a 2-d model (itertools.product / next / block loop unrolled), CTMCGrid.left_point / right_point / "
             "middle are Gen/GenTieChain.v, Gen/GenTieChain2d.v (specs/TIE.py, loop plug-in); Proofs/Tie_Chain.v, Tie_Chain2d.v prove them equal to "
             "Model/Grid.v / Model/Chain.v (C01_gen_*_is_model) and C01_gen_chain_rates / C01_gen_sum_rates_is_intensity_2d state the chain theorems "
-            "about the generated definitions",
+            "about the generated definitions.  Wave 8 (audit5a X-d): GenTieChain2d.compute_intensity_of_jumps_2d keeps h_left / h_right as the per-axis "
+            "terms WRITTEN IN THE SPEC (the spec's reading); GenTieChain2d.compute_intensity_of_jumps_2d_nd builds them by applying the TRANSLATED "
+            "CoordinateND variants of left_point / right_point (clamp len(axes[0]) on both axes) and the tuple variant of middle, i.e. what the code "
+            "dispatches to on a two-axis grid: C01_gen_compute_intensity_of_jumps_2d_nd_is_model / C01_gen_sum_rates_is_intensity_2d_nd (axes of equal "
+            "lengths).  The generated TIE definitions are spot-checked against the running Python on every run (correspond -> "
+            "tie_selftest.selftest_spotchecks: real CTMCGrid / Coordinate objects, so the singledispatch, __init__ and caller-visible edits the "
+            "translator cannot see are exercised)",
             "wave 6 -- the 1-d chain OVER THE REALS: Model/ChainR.v (twin of Model/Grid.v + Model/Chain.v over R), Gen/GenC01ChainR.v = the same four "
             "functions + compute_intensity_of_jumps (1-d) regenerated over R (specs/C01.py), equal to the hand model by theorem; the truncated measure "
             "is C09's truncated_integrate around the generated truncated_interval (incl. the a > b and aa == bb branches); `mass` is instantiated with "
@@ -107,6 +117,16 @@ THEOREM_NOTES = {
     "C01_alias_table_chain_law": "composition with C02 (alias_law, table_law): the hypotheses `nonneg p`, `qsum p == 1` of C02 are discharged for the "
                                  "factory's vector of any admissible chain with intensity > 0 (C01_factory_vector_is_distribution); TABLE: the idealised "
                                  "table_mass of C02_table_law (slot byte and alias uniform independent), not the exact 32-bit word count; over Q",
+    "C01_gen_compute_intensity_of_jumps_2d_is_model": "THE SPEC'S READING (audit5a X-d): in GenTieChain2d.compute_intensity_of_jumps_2d the tuple-valued h_left / "
+                                                      "h_right are the per-axis terms written in specs/TIE.py (static_values), not translated from "
+                                                      "grid.left_point(CoordinateND) etc.; it holds for all xs, ys, o but says nothing about the dispatch. The statement "
+                                                      "about what the code executes is C01_gen_compute_intensity_of_jumps_2d_nd_is_model",
+    "C01_gen_compute_intensity_of_jumps_2d_nd_is_model": "h_left / h_right are applications of the TRANSLATED CoordinateND variants (left_point_nd2 / right_point_nd2, "
+                                                         "clamp len(axes[0]) on both axes; middle_nd2); hypothesis length ys = length xs (via "
+                                                         "Tie_Chain2d.clamp_agrees_same_length; clamp_agrees_inner would also do: origin not the last point of "
+                                                         "either axis); needed: Tie_Chain2d.gen_compute_intensity_of_jumps_2d_nd_clamp_refuted (31/4 vs 15/2 on "
+                                                         "lengths (3,5), origin on the last point of the first axis). The block loop is specialised to a 2-d model "
+                                                         "(static_tests dimension_model() == 2); model.mass stays an abstract box mass",
     "C01_gen_sum_rates_is_intensity_2d": "2-d: only the intensity is regenerated from the source (GenTieChain2d); the per-cell rates of a copula chain are "
                                          "not computed by a loop in samplingfactory.py (the samplers call model.mass per cell) and stay the hand model q_matrix2",
     "C01_copula_rate_is_restricted_nu_refuted": "audit 4 A4/D5 decided: for copula chains the code's rate of a cell is the mass under the copula applied "
@@ -132,7 +152,7 @@ THEOREM_NOTES = {
                                      "sampler's own model.mass call (cell, value) and probability per state, not a harness recomputation; only the INVERSION sampler "
                                      "is driven in n-d (BINARYSEARCHTREEADAPTED's n-d rates are not observed here). Dimension > 3 (_mass_nd) is not modelled",
 }
-LEVEL_TEXT = ("Proof: 47 Coq theorems/examples (Q part closed under the global context; R part: the standard axioms of the Coq reals, classical "
+LEVEL_TEXT = ("Proof: 50 Coq theorems/examples (Q part closed under the global context; R part: the standard axioms of the Coq reals, classical "
               "logic, functional extensionality): for every admissible axis of any length, any middle function "
               "with the stated properties and any interval mass that is additive and non-negative away from the origin, the cells of the non-origin states tile "
               "[x_0,x_n] minus the central cell with shared end points and no overlap, every state lies in its cell, every rate is "
@@ -148,7 +168,9 @@ LEVEL_TEXT = ("Proof: 47 Coq theorems/examples (Q part closed under the global c
               "(C01_copula_rate_is_restricted_nu_refuted, finding F-C01-1, known): the code integrates the copula of the truncated margins, not the "
               "restriction of nu.  Wave 6: (a) create_q_vector, compute_intensity_of_jumps (1-d, 2-d), "
               "left_point / right_point / middle are regenerated from the source on every run (loop plug-in) and proved equal to the hand models; the "
-              "chain theorems are restated about the generated definitions; (b) the 1-d theorems are replayed over R and COMPOSED with C09: for "
+              "chain theorems are restated about the generated definitions (wave 8: the 2-d intensity also in the form whose h_left / h_right are the "
+              "translated CoordinateND variants applied to the origin coordinate, for axes of equal lengths; the older 2-d lemma is the spec's reading); "
+              "the generated TIE definitions are spot-checked against the running Python on every run; (b) the 1-d theorems are replayed over R and COMPOSED with C09: for "
               "HEM, Merton and VG (generated densities and closed forms) every rate of the generated rate vector IS the integral of the density "
               "over the state's cell, is >= 0, and the rates sum to the generated intensity -- no hypothesis on the mass is left; (c) composed "
               "with C02: the vector create_vec_jump_matrix hands to ALIAS / TABLE is a probability vector and both samplers give state k the "
@@ -239,12 +261,31 @@ def step_oracle(res, viol, nu, axis, o, q, lam, ctx):
         viol("sum of the rates differs from the mass of the truncated support minus the central cell", **ctx)
 
 
+def _tie_spot(res):
+    """cross-cutting TIE layer (DESIGN 2.2a): the GENERATED GenTie* definitions of GEN_DEPS (just regenerated and compiled by the driver)
+    against the RUNNING Python functions on real CTMCGrid / Coordinate objects, dyadic inputs, exact, one coqc (harness/tie_selftest.py)"""
+    try:
+        import tie_selftest
+        out = tie_selftest.selftest_spotchecks([m for m in GEN_DEPS if m.startswith("GenTie")], res.seed, name=PROP)
+    except Exception as e:  # noqa: BLE001 -- the implementation raised on a spot-check input, or the case file does not compile
+        res.broke("correspondence TIE spot check", f"could not run: {type(e).__name__}: {str(e)[-1500:]}")
+        return
+    for g, (n, bad) in sorted(out.items()):
+        for i in range(n):
+            res.count(("tie_spot", g, res.seed, i), kind="tie_spot")
+            res.bump("tie_spot", g)
+        if bad:
+            res.broke(f"correspondence TIE {g}", f"generated definition(s) of group {g} disagree with the running Python function on "
+                                                 f"{len(bad)} of {n} spot-check cases: indices {bad[:10]} (build/TIE/{PROP}.v)")
+
+
 def correspond(res):
     from rpylib.distribution.samplingfactory import create_q_vector, compute_intensity_of_jumps
     from stepmeasure import (StepModel, random_step_measure, random_dyadic_axis, make_grid, step_spec)
     from props.C13 import build_fixed, build_credit
     rng = random.Random(res.seed)
     thorough = res.tier == "thorough"
+    _tie_spot(res)
 
     def viol(what, **kw):
         res.violation(what, dict(kw))
